@@ -48,12 +48,13 @@ def slug(s):
     return re.sub(r'[^A-Za-z0-9_.-]+', '_', s)
 
 
-def run_verus_unit(unit, props_default, tier, outdir):
+def run_verus_unit(unit, props_default, tier, outdir, skip_fns=None, depth=0):
     """returns dict(unit, asm, res, hard, path)"""
     tpl = os.path.join(ROOT, 'contracts', 'verus', unit + '.rs')
     r = {'unit': unit, 'asm': None, 'res': None, 'hard': None, 'path': None}
+    skip = dict(skip_fns or {})
     try:
-        asm = vu.assemble(tpl, unit, props_default)
+        asm = vu.assemble(tpl, unit, props_default, skip)
     except ExtractError as e:
         r['hard'] = 'extraction: %s' % e
         return r
@@ -73,6 +74,12 @@ def run_verus_unit(unit, props_default, tier, outdir):
     rlimit = 20 if tier == 'quick' else 60
     res = vu.run_verus(path, rlimit=rlimit)
     hard = vu.classify(asm, res, CANARY)
+    if hard and res.get('hard_fns') and depth < 4:
+        # a function body the verifier cannot take (unsupported construct, type error after an edit): assume its contract,
+        # report its obligations as undecided, and still check everything else
+        for fn_, why in res['hard_fns'].items():
+            skip[fn_] = 'verifier cannot ingest the body: ' + why
+        return run_verus_unit(unit, props_default, tier, outdir, skip, depth + 1)
     if hard is None and not res.get('canary_failed'):
         hard = 'vacuity guard: the injected `ensures false` canary was NOT refuted — verifier result cannot be trusted'
     if hard is None:
